@@ -179,6 +179,9 @@ def prefix_sid_srv6(tokeniser: Any) -> PrefixSid:
     if value != ')':
         base = 10 if not value.startswith('0x') else 16
         behavior = int(value, base)
+        if not 0 <= behavior <= 0xFFFF:
+            # the endpoint behaviour is two octets (RFC 9252 3.1): beyond it packing raised struct.error
+            raise ValueError(f"'{value}' is not a valid SRv6 endpoint behaviour\n  Must be 0 to 65535")
         value = tokeniser()
         if value == '[':
             values = []
@@ -190,6 +193,9 @@ def prefix_sid_srv6(tokeniser: Any) -> PrefixSid:
                 value = tokeniser()
                 base = 10 if not value.startswith('0x') else 16
                 values.append(int(value, base))
+                if not 0 <= values[-1] <= 0xFF:
+                    # every field of the SID structure is one octet (RFC 9252 3.2.1)
+                    raise ValueError(f"'{value}' is not a valid SID structure length\n  Must be 0 to 255")
 
             value = tokeniser()
             if value != ']':
